@@ -207,6 +207,7 @@ PROPS = {
             'Type::is_quantum is exactly {Qubit, QubitArray, HardwareQubit}; is_const exact',
             'expr_to_asg_texpr, BinExpr arm: exactly one IncompatibleTypesError per quantum operand; ReturnExpr arm: ReturnInGlobalScopeError iff in global scope; call_expr_to_asg_texpr: NumDefParamsError iff the argument count differs (in-body tagged assertions)',
             'assignment_stmt_to_asg_stmt: MutateConstError iff the target symbol is const',
+            'a qubit declaration, a gate definition and a subroutine definition push NotInGlobalScopeError exactly when they are not in the global scope, and a delay pushes IncompatibleTypesError exactly when its duration expression is not of type duration (assertions inside stmt_to_asg_stmt)',
         ],
         not_decided=['qubit/gate/def/include outside global scope, non-duration delay (arms of stmt_to_asg_stmt: closures)'],
         explanation='Verus.',
